@@ -878,6 +878,17 @@ func (b *BaseStore) Sync(ctx context.Context, heads []ipfslog.Entry) error {
 			continue
 		}
 
+		// the identity block and the key of a writer are public (each of its
+		// entries carries them): what tells its entries from anybody's is the
+		// signature. The log checks it when the entry is joined, which is after
+		// the replicator has announced the head, raised the replication maximum
+		// to its clock and fetched everything it links to
+		if err := h.Verify(identityProvider, b.IO()); err != nil {
+			span.AddEvent("store-sync-cant-verify-signature", trace.WithAttributes(otkv.String("error", err.Error())))
+			b.Logger().Debug("warning: Given input entry is not signed by its author and was discarded", zap.Error(err))
+			continue
+		}
+
 		hash, err := b.IO().Write(ctx, b.IPFS(), h, nil)
 		if err != nil {
 			span.AddEvent("store-sync-cant-write", trace.WithAttributes(otkv.String("error", err.Error())))
